@@ -7,6 +7,12 @@
 // with all children inside it (the ok* predicates); loops carry the termination measure of the scanner.
 package parser
 
+// New: the parser works on exactly the text it is given - no normalisation, no stripping - starting at
+// offset 0 (positions in the tree are byte offsets into the caller's text).
+//@ func New
+//@   modifies nothing
+//@   ensures [C07] [C08] @verbatim: result != nil && fresh(result) && result.Scanner.text == text && result.Scanner.Path == path && result.Scanner.offset == 0 && result.Scanner.currentLen == 0 && result.Scanner.current == 0 && result.Callback == nil
+//
 //@ def node(r directives.Range, p *Parser, start int) bool := rangeIn(r, p.Scanner) && r.Start == start && r.End == p.offset
 //@ def within(c directives.Range, r directives.Range) bool := r.Start <= c.Start && c.End <= r.End && c.Start <= c.End && c.Text == r.Text && c.Path == r.Path
 //@ def scopeOf(s scanner.Scope, p *Parser) bool := s.Scanner == &p.Scanner && 0 <= s.Start && s.Start <= p.offset
